@@ -154,6 +154,21 @@ def monitor(ctx):
                 return {"what": f"{sfx}: decoding with preferences {pr} raises {type(e).__name__} where decoding without succeeds", "function": sfx, "payload": str(x)}, n
             if m0 is None:
                 continue
+            if m1 is not None and p.get("Type") == "Fast" and n % 3 == 0 and len(data) <= 223:
+                # the same message arriving as CAN frames (fast-packet reassembly) through the public entry point: the preferences apply
+                # exactly as for the pre-assembled payload
+                import deccorr
+                mf = None
+                try:
+                    for fr in deccorr.spec_frames(n % 8, data[::-1]):
+                        mf = d1.decode_tcp(deccorr._ebyte(p["PGN"], 3, 1, 255, fr)) if len(fr) <= 8 else None
+                except Exception as e:
+                    mf = f"raised {type(e).__name__}"
+                if mf is None or isinstance(mf, str) or [(f.id, repr(f.value), f.unit_of_measurement) for f in mf.fields] != [(f.id, repr(f.value), f.unit_of_measurement) for f in m1.fields]:
+                    bad = next(((a.id, a.value, a.unit_of_measurement, b.value, b.unit_of_measurement) for a, b in zip(m1.fields, getattr(mf, "fields", []) or [])
+                                if (repr(a.value), a.unit_of_measurement) != (repr(b.value), b.unit_of_measurement)), None)
+                    return {"what": f"{sfx} with preferences {pr}: the message reassembled from frames differs from the pre-assembled one "
+                                    f"({'no message' if mf is None or isinstance(mf, str) else bad}: field, value/unit pre-assembled, value/unit from frames)", "function": sfx, "payload": str(x)}, n
             if m1 is None or len(m1.fields) != len(m0.fields) or (m1.PGN, m1.id, m1.source, m1.destination, m1.priority, m1.hash) != (m0.PGN, m0.id, m0.source, m0.destination, m0.priority, m0.hash):
                 return {"what": f"{sfx}: message attributes differ with preferences {pr}", "function": sfx, "payload": str(x)}, n
             for f0, f1 in zip(m0.fields, m1.fields):
